@@ -960,7 +960,7 @@ func C04() *check.Property {
 	return &check.Property{
 		ID:       "C04",
 		Title:    "Each operator computes its documented function of the input sequence",
-		Patterns: cat(CorePatterns, PluginPkgs, []string{PromPkg}, RatePkgs),
+		Patterns: cat(CorePatterns, PluginPkgs, IOPluginPkgs, []string{PromPkg}, RatePkgs),
 		Scope:    []string{ro},
 		Rules:    []check.Rule{ruleAdapter(), ruleAlias(), rulePipe(), ruleNoPostDeliveryMutation(), ruleDeadEmission(), ruleStateLevel(), ruleTerminalPropagation(), ruleObservableParamUsed(), ruleContextlessDelegates(), ruleBodyTerminates(), ruleLateEmission(), ruleConsumeFlag(), rulePublishBeforeEmit(), ruleTerminalCallAgreement(), ruleTimerDequeueCoupled(), ruleQueueFIFO(), ruleIncorporateBeforeDecide(), ruleAccessGuarded()},
 		Explanation: "Narrow structural claim. The values each operator computes are NOT decided (no executable specification of ~150 operators is derivable from the source). Four clauses of the property are visible in the code's shape and are decided: " +
